@@ -209,6 +209,9 @@ class KmipEngine(object):
                 the request batch items.
         """
         self._client_identity = [None, None]
+        # The ID placeholder is only valid within a single batch. Reset it so
+        # that it never carries over from an earlier request.
+        self._id_placeholder = None
         header = request.request_header
 
         # Process the protocol version
